@@ -99,18 +99,60 @@ func ruleNilFromGetter(c *core.Ctx, rule string) {
 		failed := false
 		explore := func(root *ssa.Function) {
 			x := newExec(c)
+			// a getter that searches (a loop over the children for the smallest key) is not followed: states that meet at
+			// a loop head inside an inlined call lose what the caller had settled. It is modelled by its own question
+			// instead — "nil exactly when len(receiver.Field) == 0": nil-able where the path leaves that open, a value
+			// that is not nil where the path has excluded it.
+			x.Hooks.Call = func(x *absint.Exec, s *absint.State, site ssa.CallInstruction, callee *ssa.Function, fnv absint.Value, args []absint.Value) (absint.Value, bool) {
+				if callee == nil || !isGetter[callee] || len(args) == 0 {
+					return nil, false
+				}
+				field, ok := elementOfField(callee)
+				if !ok && loopFree(callee) {
+					return nil, false // followed as it stands
+				}
+				if !ok {
+					field, ok = emptyGuardField(callee)
+				}
+				if !ok {
+					return nil, false // followed as it stands
+				}
+				var cell absint.Value
+				switch r := args[0].(type) {
+				case absint.Ptr:
+					cell = absint.Ptr{Loc: r.Loc + "·" + field, Fresh: r.Fresh}
+				case absint.Sym, *absint.Term:
+					cell = absint.Ptr{Loc: "L:" + r.Key() + "·" + field}
+				default:
+					return nil, false
+				}
+				res := x.Fresh(s, "getter:"+callee.Name())
+				if !x.CanBeZero(s, absint.NewTerm("len", x.Load(s, cell, nil))) {
+					x.AssumeNil(s, res, false)
+				} else {
+					s.SetData("maybenil:"+res.Key(), "1")
+				}
+				return res, true
+			}
 			// the getter and the function itself are followed; a helper with a loop (Keys) is an unknown call that is taken
 			// not to change the structure it is asked about
 			x.Hooks.Inline = func(callee *ssa.Function, depth int) bool {
 				if callee == fn || isGetter[callee] {
-					return true
+					return true // (getters modelled by their contract never get here: the call hook answers for them)
 				}
 				// helpers without loops (isLastPair) are followed too: nothing in them meets an earlier visit of itself
 				return depth <= 4 && c.P.InScope(callee) && loopFree(callee)
 			}
 			x.Hooks.Deref = func(x *absint.Exec, s *absint.State, in ssa.Instruction, ptr absint.Value) {
+				if len(s.Frames) == 0 {
+					return
+				}
 				cst, ok := ptr.(absint.Const)
-				if !ok || !cst.Nil || len(s.Frames) == 0 {
+				if sym, isSym := ptr.(absint.Sym); isSym && s.Data["maybenil:"+sym.Key()] == "1" {
+					// the answer of a searching getter where the path left "is there one" open (and it was not tested since)
+					ok, cst = true, absint.Const{Nil: true}
+				}
+				if !ok || !cst.Nil {
 					return
 				}
 				var operand ssa.Value
@@ -497,4 +539,105 @@ func nonEmptyText(v string) string {
 		return "nothing tested on the path"
 	}
 	return v
+}
+
+// emptyGuardField: the getter answers nil exactly on the true side of a test `len(receiver.Field) == 0` in its entry
+// block, and nowhere else; the field's name.
+func emptyGuardField(fn *ssa.Function) (string, bool) {
+	if len(fn.Blocks) == 0 || len(fn.Params) == 0 {
+		return "", false
+	}
+	if f, ok := elementOfField(fn); ok {
+		return f, true
+	}
+	b := fn.Blocks[0]
+	iff, ok := b.Instrs[len(b.Instrs)-1].(*ssa.If)
+	if !ok {
+		return "", false
+	}
+	cmp, ok := iff.Cond.(*ssa.BinOp)
+	if !ok || cmp.Op != token.EQL {
+		return "", false
+	}
+	cst, ok := cmp.Y.(*ssa.Const)
+	if !ok || cst.Value == nil || cst.Int64() != 0 {
+		return "", false
+	}
+	call, ok := cmp.X.(*ssa.Call)
+	if !ok {
+		return "", false
+	}
+	if bi, isB := call.Call.Value.(*ssa.Builtin); !isB || bi.Name() != "len" || len(call.Call.Args) != 1 {
+		return "", false
+	}
+	ld, ok := call.Call.Args[0].(*ssa.UnOp)
+	if !ok || ld.Op != token.MUL {
+		return "", false
+	}
+	fa, ok := ld.X.(*ssa.FieldAddr)
+	if !ok || fa.X != ssa.Value(fn.Params[0]) {
+		return "", false
+	}
+	// the true side returns nil; no other block returns the constant nil
+	nils := 0
+	for _, blk := range fn.Blocks {
+		if ret, isRet := blk.Instrs[len(blk.Instrs)-1].(*ssa.Return); isRet && len(ret.Results) == 1 {
+			if k, isC := ret.Results[0].(*ssa.Const); isC && k.IsNil() {
+				nils++
+				if blk != b.Succs[0] {
+					return "", false
+				}
+			}
+		}
+	}
+	if nils != 1 {
+		return "", false
+	}
+	return fieldName(fa.X.Type(), fa.Field), true
+}
+
+func hasEmptyGuard(fn *ssa.Function) bool {
+	_, ok := emptyGuardField(fn)
+	return ok
+}
+
+// elementOfField: every answer of the getter that is not the constant nil is an element of one and the same map or
+// slice field of the receiver (tn.Children[k]). Such a getter is taken to answer nil only when that field is empty —
+// the contract of "first child", "smallest", "last": with something in the field there is an element to answer.
+func elementOfField(fn *ssa.Function) (string, bool) {
+	field := ""
+	n := 0
+	for _, b := range fn.Blocks {
+		ret, ok := b.Instrs[len(b.Instrs)-1].(*ssa.Return)
+		if !ok || len(ret.Results) != 1 {
+			continue
+		}
+		if k, isC := ret.Results[0].(*ssa.Const); isC && k.IsNil() {
+			continue
+		}
+		var base ssa.Value
+		switch t := ret.Results[0].(type) {
+		case *ssa.Lookup:
+			base = t.X
+		case *ssa.UnOp:
+			if ia, isIA := t.X.(*ssa.IndexAddr); isIA && t.Op == token.MUL {
+				base = ia.X
+			}
+		}
+		ld, ok := base.(*ssa.UnOp)
+		if !ok || ld.Op != token.MUL {
+			return "", false
+		}
+		fa, ok := ld.X.(*ssa.FieldAddr)
+		if !ok || fa.X != ssa.Value(fn.Params[0]) {
+			return "", false
+		}
+		f := fieldName(fa.X.Type(), fa.Field)
+		if field != "" && field != f {
+			return "", false
+		}
+		field = f
+		n++
+	}
+	return field, n > 0
 }
